@@ -4253,6 +4253,11 @@ class TLSConnection(TLSRecordLayer):
                                         serverHello.random,
                                         settings.cipherImplementations)
 
+                #Set the session: the connection uses it from here on, a
+                #fatal error in the rest of the abbreviated handshake
+                #invalidates it (RFC 5246, section 7.2.2)
+                self.session = session
+
                 #Exchange ChangeCipherSpec and Finished messages
                 for result in self._sendFinished(session.masterSecret,
                                                  session.cipherSuite,
@@ -4262,8 +4267,6 @@ class TLSConnection(TLSRecordLayer):
                                                 session.cipherSuite):
                     yield result
 
-                #Set the session
-                self.session = session
                 self.extendedMasterSecret = session.extendedMasterSecret
                 self._clientRandom = clientHello.random
                 self._serverRandom = serverHello.random
